@@ -62,31 +62,37 @@ type c14Fault struct {
 	Kind string
 	Val  interface{}
 	Opt  bool // needs VarExp
+	// Extra: further top-level settings; NamePath: the setting the error has to name when it is
+	// not the one the fault value is stored at (a broken link further down a chain of references)
+	Extra    M
+	NamePath string
 }
 
 var c14Faults = []c14Fault{
-	{"i", "object where a primitive is expected", M{"x": 1}, false},
-	{"i", "unparsable string", "abc", false},
-	{"i", "out of range", 300, false},
-	{"u", "negative into unsigned", -1, false},
-	{"u", "out of range", 70000, false},
-	{"f", "unparsable string", "abc", false},
-	{"f", "out of range", 1e300, false},
-	{"b", "unparsable string", "maybe", false},
-	{"s", "object where a primitive is expected", M{"x": 1}, false},
-	{"d", "bad duration", "5 parsecs", false},
-	{"d", "duration overflow", 9223372037, false},
-	{"r", "bad regexp", "(", false},
-	{"a", "wrong list length", L{1, 2, 3}, false},
-	{"a", "wrong list length", L{1}, false},
-	{"a", "element conversion", L{1, "x"}, false},
-	{"v", "failed tag validator", 500, false},
-	{"w", "failed Validate()", 13, false},
-	{"n", "failed tag validator (required)", 0, false},
-	{"n", "required setting absent", "ABSENT", false},
-	{"s", "unresolvable reference", "${does.not.exist}", true},
-	{"i", "unresolvable reference in a splice", "1${nope}", true},
-	{"s", "cyclic reference", "SELF", true},
+	{"i", "object where a primitive is expected", M{"x": 1}, false, nil, ""},
+	{"i", "unparsable string", "abc", false, nil, ""},
+	{"i", "out of range", 300, false, nil, ""},
+	{"u", "negative into unsigned", -1, false, nil, ""},
+	{"u", "out of range", 70000, false, nil, ""},
+	{"f", "unparsable string", "abc", false, nil, ""},
+	{"f", "out of range", 1e300, false, nil, ""},
+	{"b", "unparsable string", "maybe", false, nil, ""},
+	{"s", "object where a primitive is expected", M{"x": 1}, false, nil, ""},
+	{"d", "bad duration", "5 parsecs", false, nil, ""},
+	{"d", "duration overflow", 9223372037, false, nil, ""},
+	{"r", "bad regexp", "(", false, nil, ""},
+	{"a", "wrong list length", L{1, 2, 3}, false, nil, ""},
+	{"a", "wrong list length", L{1}, false, nil, ""},
+	{"a", "element conversion", L{1, "x"}, false, nil, ""},
+	{"v", "failed tag validator", 500, false, nil, ""},
+	{"w", "failed Validate()", 13, false, nil, ""},
+	{"n", "failed tag validator (required)", 0, false, nil, ""},
+	{"n", "required setting absent", "ABSENT", false, nil, ""},
+	{"s", "unresolvable reference", "${does.not.exist}", true, nil, ""},
+	{"i", "unresolvable reference in a splice", "1${nope}", true, nil, ""},
+	{"s", "cyclic reference", "SELF", true, nil, ""},
+	{"a", "broken second link of a reference chain read into an array", "${zchain}", true, M{"zchain": "${does.not.exist}"}, "zchain"},
+	{"a", "broken third link of a reference chain read into an array", "${zchain}", true, M{"zchain": "${zlink}", "zlink": "${does.not.exist}"}, "zlink"},
 }
 
 type c14Load int
@@ -152,6 +158,9 @@ func c14Config(loc string, f *c14Fault, selfPath string) (M, string) {
 		obj[f.Leaf] = val
 		if val == "ABSENT" {
 			delete(obj, f.Leaf)
+		}
+		for k, v := range f.Extra {
+			full[k] = v
 		}
 	}
 	return full, path
@@ -317,6 +326,9 @@ func c14Space() *core.Space {
 							path = key + "." + newIdx + "." + f.Leaf
 						}
 					}
+				}
+				if f.NamePath != "" {
+					path = f.NamePath
 				}
 				if err != nil {
 					// a fault may already be reported while loading (e.g. a reference that does not parse)
